@@ -436,4 +436,49 @@ def mainNamed (env : Env) (keep : Bool) (tty : Bool) (opts : List Opt) (name : P
     | .error .optionValueError => ⟨fs, 2, [], none, [], ans⟩
     | _ => ⟨fs, 1, [], none, [], ans⟩
 
+/-! ### Variants selected by the tree (defect round: C09-2 `--verbose` fail-fast, C09-1a unsafe argument names)
+
+`mainNamed` above is the tree as pinned *without* noise options.  Two more behaviours exist on one tree or the other:
+
+* fail-fast (`failFast = true`): `process_actions` re-raises the first collected per-file exception
+  (`if logger.debug_enabled: raise` before `fixes/C09-2.diff`: under `--debug`, `--verbose` and
+  `PYFLYBY_LOG_LEVEL=DEBUG`; after it under `--debug` only): the loop over files is left, no summary is
+  printed, the exception leaves the tool.
+* isolated unsafe names (`isoUnsafe = true`, tree with `fixes/C09-1a.diff`): an argument whose name `Filename`
+  refuses is reported through `on_error` (a "bad filename", in command-line order, ahead of the ones
+  `expand_py_files_from_args` reports) and the other arguments are processed; `isoUnsafe = false` is the refusal
+  of the whole run (`mainNamed`). -/
+
+/-- The loop over files when the first `error` outcome is re-raised.  Second component: the file and the
+    error that left the tool (`none`: the loop ended as `processFiles` does). -/
+def processFilesFF (env : Env) (acts : List Action) : List Path → Run → Run × Option Msg
+  | [], s => (s, none)
+  | p :: ps, s =>
+    let s1 := processFile env acts s p
+    match (runActions env acts s.fs (MState.fresh p) s.ans).oc with
+    | .error e => (s1, some ⟨p, e⟩)
+    | _ =>
+      match s1.halted with
+      | some _ => (s1, none)
+      | none => processFilesFF env acts ps s1
+
+/-- A whole invocation with named paths, with the two variant bits.  Second component: the exception that
+    escaped `process_actions` under fail-fast (exit status 1, no summary). -/
+def mainV (env : Env) (keep tty isoUnsafe failFast : Bool) (opts : List Opt) (name : Path → Str) (fs : FS)
+    (args : List Path) (ans : List Str) : Result × Option Msg :=
+  match parseOptions keep tty opts with
+  | .error .optionValueError => (⟨fs, 2, [], none, [], ans⟩, none)
+  | .error .exception => (⟨fs, 1, [], none, [], ans⟩, none)
+  | .ok acts =>
+    if !isoUnsafe && !args.all (fun p => safeName (name p)) then (⟨fs, 1, [], none, [], ans⟩, none)
+    else
+      let fa0 := filenameArgs fs (args.filter fun p => safeName (name p))
+      let fa : FileArgs := ⟨fa0.files, (args.filter fun p => !safeName (name p)) ++ fa0.bad⟩
+      let init := initRun fs fa ans
+      if failFast then
+        match processFilesFF env acts fa.files init with
+        | (s, some m) => (⟨s.fs, 1, [], none, s.ev, s.ans⟩, some m)
+        | (s, none) => (finish s, none)
+      else (finish (processFiles env acts fa.files init), none)
+
 end Pfb.C09
